@@ -723,8 +723,9 @@ def check_iter_others(F, R, iter_adt, mapping, first, second):
     when the first part is provably untouched and not known to be exhausted."""
     from core import all_ctxs
     from r_bracket import walk
-    ffield = [k for k, v in mapping.items() if v == first][0]
-    sfield = [k for k, v in mapping.items() if v == second][0]
+    ffield0 = [k for k, v in mapping.items() if v == first][0]
+    sfield0 = [k for k, v in mapping.items() if v == second][0]
+    first0, second0 = first, second
     for b in F.bodies.values():
         if b.self_adt != iter_adt or b.kind != "AssocFn" or b.in_tests() or b.derived:
             continue
@@ -732,6 +733,9 @@ def check_iter_others(F, R, iter_adt, mapping, first, second):
             continue
         if b.trait not in (None, "Iterator", "DoubleEndedIterator", "ExactSizeIterator", "FusedIterator"):
             continue
+        # methods that read from the back take from the second part first: the roles swap
+        back = b.trait == "DoubleEndedIterator" or (b.trait == "Iterator" and b.name == "last")
+        ffield, sfield, first, second = (sfield0, ffield0, second0, first0) if back else (ffield0, sfield0, first0, second0)
         ctxs = all_ctxs(F, b)
         top = ctxs[0]
         if b.name in ("last", "next_back") and b.trait in ("Iterator", "DoubleEndedIterator"):
@@ -750,20 +754,20 @@ def check_iter_others(F, R, iter_adt, mapping, first, second):
                     out = set()
                     for nd in walk(t):
                         if nd and nd[0] == "place" and nd[2] == ("arg", 1) and nd[3]:
-                            if nd[3][0] == "f:" + ffield:
+                            if nd[3][0] == "f:" + ffield0:
                                 out.add("first")
-                            if nd[3][0] == "f:" + sfield:
+                            if nd[3][0] == "f:" + sfield0:
                                 out.add("second")
                     return out
                 pp, fp = parts_in(pref), parts_in(fall)
                 if pp and fp and len(pp) == 1 and len(fp) == 1:
                     R.saw(b)
                     R.check("R-ITER", b.label(), pp == {"second"} and fp == {"first"},
-                            construct="%s() answers from %s unless it is empty" % (b.name, second), where=b.where(),
+                            construct="%s() answers from %s unless it is empty" % (b.name, second0), where=b.where(),
                             detail="preferred answer from the %s part (%s), fallback from the %s part" % (
-                                next(iter(pp)), mapping[ffield] if pp == {"first"} else mapping[sfield], next(iter(fp))) +
+                                next(iter(pp)), mapping[ffield0] if pp == {"first"} else mapping[sfield0], next(iter(fp))) +
                             ("" if pp == {"second"} else ": elements of %s come after those of %s, so the last "
-                             "element is %s's whenever that part is not empty" % (second, first, second)))
+                             "element is %s's whenever that part is not empty" % (second0, first0, second0)))
                     continue
 
         def part_of(ctx, op):
@@ -821,7 +825,8 @@ def check_iter_others(F, R, iter_adt, mapping, first, second):
             exhausted = False
             for f in facts_at(ctx, bi):
                 x = f[1]
-                if f[0] == "variant" and x[0] == "call" and x[1] == ("Iterator", "next") and x[2] and x[2][0] == fplace:
+                if f[0] == "variant" and x[0] == "call" and x[1][1] in ("next", "next_back", "last", "nth", "nth_back") and \
+                        x[1][0] in ("Iterator", "DoubleEndedIterator") and x[2] and x[2][0] == fplace:
                     if f[2] == "0" or (isinstance(f[2], tuple) and f[2][0] == "not" and "1" in f[2][1]):
                         exhausted = True
                 if f[0] in ("Eq", "Le") and (f[2] == ("const", "0") or f[1] == ("const", "0")):
@@ -1085,7 +1090,41 @@ def r_len_step(F, R):
                     continue
                 vs2 = [f[2] for f in facts_at(ctx, o[0][1]) if f[0] == "variant" and f[1] == self_p and isinstance(f[2], str)]
                 if len(vs2) != 1 or not vs2[0].isdigit() or int(vs2[0]) >= len(variants):
-                    R.undecided_site("R-LEN-STEP", b.label(), "constructor %s (line %s) without a known source variant" % (a[1], st["line"]))
+                    # built after a join of several source states whose fields were merged into
+                    # locals (`let (stride, count, reps) = match *self { Striding(s, c) => (s, c, 0),
+                    # Saturated(s, c, r) => (s, c, r) }`): judged once per source variant, each merged
+                    # value resolved to that variant's alternative
+                    srcs = sorted({nd[3][0][2:] for op_ in a[2] for nd in _walk_nodes(op_)
+                                   if nd[0] == "place" and nd[1] == b.key and nd[2] == ("arg", 1) and nd[3] and nd[3][0].startswith("v:")})
+                    done = False
+                    if srcs and all(v_ in formula for v_ in srcs):
+                        resolved = {v_: [_resolve_for(op_, v_, b.key) for op_ in a[2]] for v_ in srcs}
+                        if all(x is not None for ops_ in resolved.values() for x in ops_):
+                            done = True
+                            for v_ in srcs:
+                                old2 = len_of(v_, {})
+                                new = len_of(a[1].split("::")[1], {i: x for i, x in enumerate(resolved[v_])})
+                                d = lin_sub_(new, old2)
+                                # known values of merged fields (`reps == 0` on this path)
+                                from expr import nobb as _nb
+                                for f_ in facts_at(ctx, o[0][1]):
+                                    if f_[0] == "Eq" and isinstance(f_[1], tuple) and isinstance(f_[2], tuple):
+                                        for (x_, c_) in ((f_[1], f_[2]), (f_[2], f_[1])):
+                                            if c_[0] == "const" and str(c_[1]).lstrip("-").isdigit():
+                                                k_ = _resolve_for(_nb(x_), v_, b.key)
+                                                if k_ is not None and k_ in d:
+                                                    coef = d.pop(k_)
+                                                    d[1] = d.get(1, 0) + coef * int(c_[1])
+                                d = {k_: v2 for k_, v2 in d.items() if v2 != 0}
+                                ok = d == {1: Fraction(1)}
+                                n += 1
+                                R.check("R-LEN-STEP", b.label(), ok,
+                                        construct="accepted push grows len by one: %s -> %s" % (v_, ("*self = %s(..)" % a[1])[:60]),
+                                        where=where, detail="len before %s, len after %s" % (_showlin(old2), _showlin(new)) +
+                                        ("" if ok else ": the state written is not one element longer than the state it replaces; "
+                                                       "every position behind it (i - strided.len()) shifts"))
+                    if not done:
+                        R.undecided_site("R-LEN-STEP", b.label(), "constructor %s (line %s) without a known source variant" % (a[1], st["line"]))
                     continue
                 src2 = variants[int(vs2[0])]
                 old2 = len_of(src2, {})
@@ -1128,3 +1167,48 @@ def _showlin(d):
         else:
             parts.append(("%s*" % v if v != 1 else "") + show(k))
     return " + ".join(parts) or "0"
+
+
+def _walk_nodes(t):
+    if isinstance(t, tuple) and t:
+        if isinstance(t[0], str):
+            yield t
+        for x in t:
+            if isinstance(x, tuple):
+                yield from _walk_nodes(x)
+
+
+def _mentions_variant(t, key, v=None):
+    for nd in _walk_nodes(t):
+        if nd[0] == "place" and len(nd) >= 4 and nd[1] == key and nd[2] == ("arg", 1) and nd[3] and nd[3][0].startswith("v:"):
+            if v is None or nd[3][0] == "v:" + v:
+                return True
+    return False
+
+
+def _resolve_for(t, v, key):
+    """t with every phi resolved to the alternative that belongs to source variant v: the one
+    that mentions a field of v, else the only one that mentions no variant at all"""
+    if not isinstance(t, tuple) or not t:
+        return t
+    if t[0] == "phi":
+        mine = [a for a in t[1] if _mentions_variant(a, key, v)]
+        if len(mine) != 1:
+            if mine:
+                return None
+            mine = [a for a in t[1] if not _mentions_variant(a, key)]
+            if len(mine) != 1:
+                return None
+        return _resolve_for(mine[0], v, key)
+    if t[0] == "place":
+        if _mentions_variant(t, key) and not _mentions_variant(t, key, v):
+            return None
+        return t
+    if t[0] == "bin":
+        a, c = _resolve_for(t[2], v, key), _resolve_for(t[3], v, key)
+        return None if a is None or c is None else ("bin", t[1], a, c)
+    if t[0] == "const":
+        return t
+    if _mentions_variant(t, key) and not _mentions_variant(t, key, v):
+        return None
+    return t
